@@ -155,8 +155,9 @@ impl KBucket {
         }
     }
 
-    fn remove_node(&mut self, node_id: &NodeId) {
-        self.nodes.retain(|n| &n.id != node_id);
+    fn remove_node(&mut self, node_id: &NodeId) -> Option<NodeInfo> {
+        let pos = self.nodes.iter().position(|n| &n.id == node_id)?;
+        Some(self.nodes.remove(pos))
     }
 
     fn get_nodes(&self) -> &[NodeInfo] {
@@ -195,9 +196,17 @@ impl KademliaRoutingTable {
         self.buckets[bucket_index].add_node(node)
     }
 
-    fn remove_node(&mut self, node_id: &NodeId) {
+    fn remove_node(&mut self, node_id: &NodeId) -> Option<NodeInfo> {
         let bucket_index = self.get_bucket_index(node_id);
-        self.buckets[bucket_index].remove_node(node_id);
+        self.buckets[bucket_index].remove_node(node_id)
+    }
+
+    fn contains(&self, node_id: &NodeId) -> bool {
+        let bucket_index = self.get_bucket_index(node_id);
+        self.buckets[bucket_index]
+            .get_nodes()
+            .iter()
+            .any(|n| &n.id == node_id)
     }
 
     fn find_closest_nodes(&self, key: &DhtKey, count: usize) -> Vec<NodeInfo> {
@@ -465,7 +474,7 @@ impl GeographicDiversityEnforcer {
         *self.region_counts.entry(region).or_insert(0) += 1;
     }
 
-    fn _remove(&mut self, region: GeographicRegion) {
+    fn remove(&mut self, region: GeographicRegion) {
         if let Some(count) = self.region_counts.get_mut(&region) {
             *count = count.saturating_sub(1);
         }
@@ -1224,9 +1233,14 @@ impl DhtCoreEngine {
 
     /// Handle node failure
     pub async fn handle_node_failure(&mut self, failed_node: NodeId) -> Result<()> {
-        // Remove from routing table
-        let mut routing = self.routing_table.write().await;
-        routing.remove_node(&failed_node);
+        // Remove from routing table and give its admission slots back
+        let removed = {
+            let mut routing = self.routing_table.write().await;
+            routing.remove_node(&failed_node)
+        };
+        if let Some(node) = removed {
+            self.release_admission_slots(&node.address).await;
+        }
 
         // Schedule repairs for affected data
         let _replication = self.replication_manager.write().await;
@@ -1240,10 +1254,13 @@ impl DhtCoreEngine {
     /// This is called when a node fails security validation or is detected
     /// as malicious through Sybil/collusion detection.
     pub async fn evict_node(&self, node_id: &NodeId, reason: EvictionReason) -> Result<()> {
-        // 1. Remove from routing table
-        {
+        // 1. Remove from routing table and give its admission slots back
+        let removed = {
             let mut routing = self.routing_table.write().await;
-            routing.remove_node(node_id);
+            routing.remove_node(node_id)
+        };
+        if let Some(node) = removed {
+            self.release_admission_slots(&node.address).await;
         }
 
         // 2. Update security metrics based on eviction reason
@@ -1328,8 +1345,47 @@ impl DhtCoreEngine {
         self.close_group_validator.clone()
     }
 
+    /// Return the IP-diversity and region slots held for `address` (the inverse of
+    /// the increments `add_node` makes for an address it can parse).
+    async fn release_admission_slots(&self, address: &str) {
+        let ip_addr: Option<IpAddr> = if let Ok(socket) = address.parse::<SocketAddr>() {
+            Some(socket.ip())
+        } else {
+            address.parse::<IpAddr>().ok()
+        };
+        let Some(ip) = ip_addr else {
+            return;
+        };
+        self.release_ip_slots(ip).await;
+        let region = GeographicRegion::from_ip(ip);
+        self.geographic_diversity_enforcer
+            .write()
+            .await
+            .remove(region);
+    }
+
+    /// Return the IP-diversity slots held for `ip`
+    async fn release_ip_slots(&self, ip: IpAddr) {
+        let mut enforcer = self.ip_diversity_enforcer.write().await;
+        if let Ok(analysis) = enforcer.analyze_unified(ip) {
+            enforcer.remove_unified(&analysis);
+        }
+    }
+
     /// Add a node to the DHT with security checks
     pub async fn add_node(&mut self, node: NodeInfo) -> Result<()> {
+        // The local node is never admitted, and a peer that is already listed only
+        // has its entry refreshed: neither may consume admission slots again.
+        if node.id == self.node_id {
+            return Ok(());
+        }
+        {
+            let mut routing = self.routing_table.write().await;
+            if routing.contains(&node.id) {
+                return routing.add_node(node);
+            }
+        }
+
         // 1. Security Check: Close Group Validator
         {
             // Active validation query
@@ -1395,6 +1451,9 @@ impl DhtCoreEngine {
                         ip,
                         region
                     );
+                    // give back the IP-diversity slots taken in step 2
+                    drop(enforcer);
+                    self.release_ip_slots(ip).await;
                     return Err(anyhow::anyhow!(
                         "Geographic diversity limits exceeded for region {region:?} (IP: {ip})"
                     ));
@@ -1403,9 +1462,17 @@ impl DhtCoreEngine {
             }
         }
 
-        // 4. Add to routing table
-        let mut routing = self.routing_table.write().await;
-        routing.add_node(node)?;
+        // 4. Add to routing table; an insertion that fails (bucket at capacity)
+        //    must not keep the slots taken in steps 2 and 3
+        let address = node.address.clone();
+        let inserted = {
+            let mut routing = self.routing_table.write().await;
+            routing.add_node(node)
+        };
+        if let Err(e) = inserted {
+            self.release_admission_slots(&address).await;
+            return Err(e);
+        }
 
         // 5. Update Metrics
         // (Placeholder: Add metric for new node joining if available)
